@@ -204,7 +204,7 @@ def isSane (r : Request) : Option SaneErr :=
 /-- Go types of handler parameters used by the harness (the meaning is given by `Env.decode`;
 theorems do not depend on it). -/
 inductive PType where
-  | any | raw | int | str | bool | ptrInt | ints | vstruct | bounds
+  | any | raw | int | str | bool | ptrInt | ints | vstruct | bounds | vslice | vmap
   deriving Repr, DecidableEq, Inhabited
 
 structure Param where
